@@ -132,10 +132,32 @@ macro_rules! common_rng_methods {
         }
     };
 }
+/// `==` where the type provides it, decided at compile time per concrete type (autoref specialisation): a type that
+/// gains or loses a PartialEq impl needs no change here.
+pub struct EqProbe<'a, T>(pub &'a T, pub &'a T);
+pub trait EqYes {
+    fn maybe_eq(&self) -> Option<bool>;
+}
+impl<'a, T: PartialEq> EqYes for EqProbe<'a, T> {
+    fn maybe_eq(&self) -> Option<bool> {
+        Some(self.0 == self.1)
+    }
+}
+pub trait EqNo {
+    fn maybe_eq(&self) -> Option<bool>;
+}
+impl<'a, T> EqNo for &EqProbe<'a, T> {
+    fn maybe_eq(&self) -> Option<bool> {
+        None
+    }
+}
 macro_rules! eq_method {
     () => {
         fn eq_dyn(&self, o: &dyn Dyn) -> Option<bool> {
-            o.as_any().downcast_ref::<Self>().map(|x| self.0 == x.0)
+            match o.as_any().downcast_ref::<Self>() {
+                Some(x) => (&EqProbe(&self.0, &x.0)).maybe_eq(),
+                None => None,
+            }
         }
     };
 }
@@ -223,6 +245,7 @@ impl Dyn for DHc128Rng {
 pub struct DIsaacRng(pub rand_isaac::IsaacRng);
 impl Dyn for DIsaacRng {
     common_rng_methods!("IsaacRng");
+    eq_method!();
     serde_methods!();
     fn obs(&self) -> Value {
         block_obs(&format!("{:?}", self.0))
@@ -231,6 +254,7 @@ impl Dyn for DIsaacRng {
 pub struct DIsaac64Rng(pub rand_isaac::Isaac64Rng);
 impl Dyn for DIsaac64Rng {
     common_rng_methods!("Isaac64Rng");
+    eq_method!();
     serde_methods!();
     fn obs(&self) -> Value {
         block_obs(&format!("{:?}", self.0))
